@@ -59,7 +59,8 @@ let () =
        let extra = extra_bits ch n k in
        let cb = log2up (Z.sub p (zi 1)) in
        let lt a b = (match Z.compare a b with Lt -> true | _ -> false) in
-       if lt extra (zi 0) || lt extra cb then emit "EXC overflow_error"
+       let ctor_ok = (match ch with C128 -> cns_ctor_ok (nat (int_of_z k)) (nat (int_of_z n)) | _ -> true) in
+       if (not ctor_ok) || lt extra (zi 0) || lt extra cb then emit "EXC overflow_error"
        else begin
          let idx = simplex_index e vs in
          let content = pack cb idx coef in
